@@ -36,6 +36,9 @@ def invalid_bundle(r, k):
         defs.append(d2)
     for i in range(k):
         defs.append("Mk%d: !record\n  fields:\n    a: Missing%d\n    b: 'int[x:2, y]'\n    c: [int, int]\n" % (i, i))
+    # unknown names that are equally close to several known names (whatever a diagnostic says about them must not vary between runs)
+    defs.append("Point2D: !record\n  fields:\n    x: float\nPoint3D: !record\n  fields:\n    x: float\nRec1: int\nRec2: int\nRec4: int\nSampleA: string\nSampleB: string\nSampleC: string\n"
+                "Near: !record\n  fields:\n    a: Point4D\n    b: Rec3\n    c: float16\n    d: SampleD\n    e: Point1D\n    f: uint12\n    g: Rec5\n    h: strin\n    i: SampleE*\n    j: Rec3->Rec6\n")
     return "\n".join(defs)
 
 
@@ -210,7 +213,7 @@ def several_faulty_parts(ctx, home, quick):
     a different way: yardl stops at the first part that fails, and which one that is - hence the whole diagnostic text - must not vary between runs.
     These runs are cheap (nothing is generated), so each package is run many times, alternating validate and generate."""
     runs = 30 if quick else 120
-    faults = ["a: Missing%d", "a: 'int[x:2, y%d]'", "a: [int, int, string%d]", "a: !map {keys: Rec%d, values: int}", "Bad_%d: int", "a: Other%d<int>"]
+    faults = ["a: Missing%d", "a: 'int[x:2, y%d]'", "a: [int, int, string%d]", "a: !map {keys: Rec%d, values: int}", "Bad_%d: int", "a: Other%d<int>", "a: Re%d", "a: float1%d"]
     good = "Rec: !record\n  fields:\n    a: int\nP: !protocol\n  sequence:\n    r: Rec\n"
 
     def broken(j):
